@@ -40,8 +40,13 @@ class Shape:
         return bb
 
 
-def real_shape(l, b, r, t, tag, as_line):
+def real_shape(l, b, r, t, tag, as_line, special=None):
     """a real library object with that bounding box (collections are homogeneous: all segments or all paths)"""
+    if special is not None:
+        from beziers.cubicbezier import CubicBezier
+        s = CubicBezier(*[Point(x, y) for x, y in special])
+        s.tag = tag
+        return s
     if as_line:
         s = Line(Point(l, b), Point(r, t))
     else:
@@ -77,17 +82,27 @@ def draw_collections(rng):
         if rng.random() < 0.15:
             nA, nB = rng.randint(0, 40), rng.randint(0, 40)
         A, B = rand_boxes(rng, nA), rand_boxes(rng, nB)
-        if rng.random() < 0.3:
+        if rng.random() < 0.45:
             # the same shape twice in one collection (a contour pasted twice): two distinct objects that compare equal by value;
             # both pairs belong to the answer
             for C in (A, B):
                 if C and rng.random() < 0.7:
                     for _ in range(rng.randint(1, 2)):
                         C.insert(rng.randrange(len(C) + 1), C[rng.randrange(len(C))])
+        if rng.random() < 0.25:
+            # a line and a cubic that begins with the line's two points (a handle drawn as a line): equal as far as the line goes, different
+            # segments with different boxes — the cubic reaches further right
+            C = A if rng.random() < 0.5 else B
+            l, b = float(rng.randint(-30, 10)), float(rng.randint(-30, 10))
+            w, h = float(rng.randint(2, 8)), float(4 * rng.randint(1, 5))
+            ext = float(rng.randint(5, 25))
+            C.append((l, b, l + w, b + h))
+            ctrl = [(l, b), (l + w, b + h), (l + w + ext, b + h), (l + w + 2 * ext, b)]
+            C.insert(rng.randrange(len(C) + 1), (l, b, l + w + 2 * ext, b + 0.75 * h, ctrl))
         if x_generic(A, B):
             return A, B
         # repair ties by shifting B by 1/2 in x
-        B = [(b[0] + 0.5, b[1], b[2] + 0.5, b[3]) for b in B]
+        B = [(b[0] + 0.5, b[1], b[2] + 0.5, b[3]) + ((tuple((x + 0.5, y) for x, y in b[4]),) if len(b) == 5 else ()) for b in B]
         if x_generic(A, B):
             return A, B
     return [], []
@@ -96,11 +111,15 @@ def draw_collections(rng):
 def run_impl(A, B, rng=None, real=False):
     if real:
         ka, kb = rng.random() < 0.5, rng.random() < 0.5
-        sa = [real_shape(*a, ("a", i), ka) for i, a in enumerate(A)]
-        sb = [real_shape(*b, ("b", i), kb) for i, b in enumerate(B)]
+        # a box given with five entries stands for a cubic (its control points are the fifth entry): segments of different kinds in
+        # one collection, the collection is then made of segments
+        ka = ka or any(len(a) == 5 for a in A) or (len(set(A)) < len(A) and rng.random() < 0.8)     # repeated shapes: mostly as segments (value-equal objects)
+        kb = kb or any(len(b) == 5 for b in B) or (len(set(B)) < len(B) and rng.random() < 0.8)
+        sa = [real_shape(*a[:4], ("a", i), ka, a[4] if len(a) == 5 else None) for i, a in enumerate(A)]
+        sb = [real_shape(*b[:4], ("b", i), kb, b[4] if len(b) == 5 else None) for i, b in enumerate(B)]
     else:
-        sa = [Shape(*a, ("a", i)) for i, a in enumerate(A)]
-        sb = [Shape(*b, ("b", i)) for i, b in enumerate(B)]
+        sa = [Shape(*a[:4], ("a", i)) for i, a in enumerate(A)]
+        sb = [Shape(*b[:4], ("b", i)) for i, b in enumerate(B)]
     res = bbox_intersections(sa, sb)
     return ["%s%d:%s%d" % (o.tag[0], o.tag[1], o2.tag[0], o2.tag[1]) for o, o2 in res]
 
@@ -110,7 +129,7 @@ def model_corr(ctx):
     lines, cases = [], []
     for i in range(40 * ctx.scale):
         A, B = draw_collections(rng)
-        args = [c for b in A + B for c in b]
+        args = [c for b in A + B for c in b[:4]]
         lines.append("model sweep %d %s" % (len(A), " ".join(drive.rat(a) for a in args)))
         cases.append((A, B))
     replies = drive.run_lines(lines)
